@@ -62,11 +62,15 @@ def build(c, scale=1.0):
     return create_2d_spectrum(f, d, E, 0, 0.0, 0.0, dims=("frequency", "direction"), depth=np.inf)
 
 
-def oracle_variances(c):
-    fs, L = c["fs"], c["L"]
-    nfft = (L // 2) * 2
+def oracle_variances(c, n=None, fs=None):
+    """spectral variance of the spectrum resampled on the Fourier grid of a series of n samples at rate fs:
+    f_k = k*fs/n for 0 <= k < n/2 (for even n the Nyquist bin carries nothing), zero-frequency bin excluded.
+    n defaults to the even length the code documents, (L // 2) * 2."""
+    fs = c["fs"] if fs is None else fs
+    L = c["L"]
+    nfft = (L // 2) * 2 if n is None else int(n)
     df = fs / nfft
-    fk = np.arange(nfft // 2) * df
+    fk = np.arange((nfft + 1) // 2) * df
     Ek = np.interp(fk, np.asarray(c["freq"], float), np.asarray(c["e"], float), left=0.0, right=0.0)
     vz = float(np.sum(Ek[1:]) * df)
     vw = float(np.sum((2 * np.pi * fk[1:]) ** 2 * Ek[1:]) * df)
@@ -106,11 +110,16 @@ def judge(ctx, c):
         return
     var = {k: float(np.var(v)) for k, v in series.items()}
     wit = lambda: dict(c)  # noqa
-    full = all(len(series[k]) == nfft for k in series)
-    if not full:
-        # the variance identity is exact only when the series has nfft samples (judged by the length monitor)
-        ctx.note("variance monitors skipped: series length != nfft")
+    lens = {len(v) for v in series.values()}
+    if len(lens) != 1:
+        ctx.check("C16.len(time)==len(series)", False, wit, {"lengths": sorted(lens)}, key="C16:length:components")
         return
+    n_ret = lens.pop()
+    if n_ret != nfft:
+        # a series of another length than the documented even length: the identity is then stated on the Fourier
+        # grid of the series that was actually returned
+        ctx.count("C16.series_length_other_than_even_length")
+        nfft, vz, vw = oracle_variances(c, n=n_ret)
     tol = 1e-9
     ctx.close("C16.var(z)==sum(E*df)", var["z"], vz, atol=1e-300, rtol=tol, case=wit, key="C16:var:z")
     ctx.close("C16.var(w)==sum(w^2*E*df)", var["w"], vw, atol=1e-300, rtol=tol, case=wit, key="C16:var:w")
@@ -143,11 +152,43 @@ def judge(ctx, c):
                   case=wit, key="C16:scale")
 
 
+def judge_history(ctx, c):
+    """the same spectrum object used again: at another sampling rate (same length), and after it was rescaled in place"""
+    from ocean_science_utilities.wavespectra.timeseries import surface_timeseries
+    s = build(c)
+    fs, L, seed = c["fs"], c["L"], c["seed"]
+    wit = lambda: dict(c, history=True)  # noqa
+    ctx.case(("history", c["kind"], "odd" if L % 2 else "even"), nontrivial=True,
+             sample={"sequence": "z at fs; z at fs2; multiply(inplace=True); z at fs", "fs": fs, "fs2": c["fs2"], "L": L})
+    ok, r1 = guarded(ctx, "C16.no-exception", lambda: surface_timeseries("z", fs, L, s, seed=seed), wit, key="C16:exception")
+    ok2, r2 = guarded(ctx, "C16.no-exception", lambda: surface_timeseries("z", c["fs2"], L, s, seed=seed), wit, key="C16:exception")
+    if not (ok and ok2):
+        return
+    ctx.count("C16.histories_on_one_spectrum_object")
+    x2 = np.asarray(r2[1], float)
+    _, vz2, _ = oracle_variances(c, n=len(x2), fs=c["fs2"])
+    ctx.close("C16.var(z)==sum(E*df)", float(np.var(x2)), vz2, atol=1e-300, rtol=1e-9, case=wit, key="C16:history:other-rate")
+    cf = float(c["scale"])
+    ok3, _ = guarded(ctx, "C16.no-exception", lambda: s.multiply(np.full(s.shape(), cf), inplace=True), wit, key="C16:exception")
+    ok4, r4 = guarded(ctx, "C16.no-exception", lambda: surface_timeseries("z", fs, L, s, seed=seed), wit, key="C16:exception")
+    if ok3 and ok4:
+        x1, x4 = np.asarray(r1[1], float), np.asarray(r4[1], float)
+        amp = float(np.max(np.abs(x1), initial=0.0))
+        ctx.close("C16.scale-sqrt(c)", x4, np.sqrt(cf) * x1, atol=1e-12 * amp * np.sqrt(cf) + 1e-300, rtol=1e-11, case=wit,
+                  key="C16:history:rescaled-in-place")
+
+
 def run_shard(ctx, shard):
     rng = ctx.rng()
-    for _ in range(shard["n"]):
-        judge(ctx, make_case(rng))
+    for i in range(shard["n"]):
+        c = make_case(rng)
+        judge(ctx, c)
+        if i % 3 == 0:
+            judge_history(ctx, dict(c, fs2=float(c["fs"] * rng.choice([0.5, 2.0, 1.3, 0.2]))))
 
 
 def replay(ctx, case):
-    judge(ctx, case)
+    if case.get("history"):
+        judge_history(ctx, case)
+    else:
+        judge(ctx, case)
